@@ -84,10 +84,12 @@ def task_finalise(writer, parts):
     return writer.finalise(parts)
 
 
-def real_cluster_check(rounds: int = 3, nwriters: int = 6, timeout: float = 120.0) -> dict:
+def real_cluster_check(rounds: int = 3, nwriters: int = 6, timeout: float = 120.0, late_rounds: int = 1) -> dict:
     """`rounds` objects, each written by `nwriters` concurrent first writes submitted as
     tasks to a 2-worker in-process cluster (every task unpickles its own copy of the
-    writer), then finalised.  Returns {"status": "ok" | "fail" | "skipped", "detail", "runs"}."""
+    writer), then finalised.  The first `late_rounds` writers are created BEFORE the client
+    exists (graph built first, cluster started later: no prep_client, the shared variable is
+    never pre-set).  Returns {"status": "ok" | "fail" | "skipped", "detail", "runs"}."""
     try:
         import distributed
     except Exception as e:  # pylint: disable=broad-except
@@ -96,6 +98,17 @@ def real_cluster_check(rounds: int = 3, nwriters: int = 6, timeout: float = 120.
 
     for name in ("distributed", "distributed.worker", "distributed.scheduler", "distributed.nanny", "distributed.core"):
         logging.getLogger(name).setLevel(logging.CRITICAL)
+    early = []
+    try:
+        for r in range(late_rounds):
+            key = f"real-cluster/late-object-{r}.tif"
+            with _REG_LOCK:
+                _REG.pop(key, None)
+            mpu = ClusterMPU("bucket", key)
+            early.append((key, mpu.writer({"ContentType": "image/tiff"})))    # no client anywhere yet
+    except Exception as e:  # pylint: disable=broad-except
+        return {"status": "fail", "detail": f"MultiPartUpload.writer() without a client raised {type(e).__name__}: {e}",
+                "runs": []}
     try:
         client = distributed.Client(processes=False, n_workers=2, threads_per_worker=2, dashboard_address=None,
                                     set_as_default=False, timeout=timeout)
@@ -105,16 +118,23 @@ def real_cluster_check(rounds: int = 3, nwriters: int = 6, timeout: float = 120.
     # _safe_get's 0.1 s time-out is not part of the model (and would make this validation depend on machine
     # load): stretch it for the duration of the check.
     orig_safe_get = S3._safe_get          # pylint: disable=protected-access
-    S3._safe_get = lambda v, timeout=0.1: orig_safe_get(v, 30.0)   # pylint: disable=protected-access
+    stretch = [30.0]
+    S3._safe_get = lambda v, timeout=0.1: orig_safe_get(v, stretch[0])   # pylint: disable=protected-access
     runs = []
     problems = []
     try:
-        for r in range(rounds):
-            key = f"real-cluster/object-{r}.tif"
-            with _REG_LOCK:
-                _REG.pop(key, None)
-            mpu = ClusterMPU("bucket", key)
-            writer = mpu.writer({"ContentType": "image/tiff"}, client=client)
+        for r in range(len(early) + rounds):
+            if r < len(early):
+                # a get on the never-set variable has to run into its time-out (twice, by the initiating task)
+                key, writer = early[r]
+                stretch[0] = 2.0
+            else:
+                key = f"real-cluster/object-{r - len(early)}.tif"
+                stretch[0] = 30.0
+                with _REG_LOCK:
+                    _REG.pop(key, None)
+                mpu = ClusterMPU("bucket", key)
+                writer = mpu.writer({"ContentType": "image/tiff"}, client=client)
             futs = [client.submit(task_write, writer, p, pure=False) for p in range(1, nwriters + 1)]
             parts, failed = [], []
             for p, f in enumerate(futs, 1):
